@@ -242,6 +242,12 @@ def file_tasks(args):
                     new = body[:p0] + b" " * w + body[p0 + w:] + lines[i][len(body):]
                     if new != lines[i]:
                         variants.append((b"".join(lines[:i]) + new + b"".join(lines[i + 1:]), "mutation:blankfield"))
+    # every line of the head of the file (where the counts, the scalars and the section headers of most formats live) deleted and
+    # doubled, one at a time
+    head = min(nl, 60 if nmut <= 60 else 400)
+    for i in range(head):
+        variants.append((b"".join(lines[:i] + lines[i + 1:]), "mutation:delete"))
+        variants.append((b"".join(lines[:i + 1] + lines[i:]), "mutation:duplicate"))
     variants += mutations(data, rng, nmut)
     # an empty line where a record or a frame is expected: after the last line, before the first, doubled
     variants.append((data + b"\n", "mutation:blank"))
